@@ -958,7 +958,9 @@ class CliSim(Simulator):
                     f.write(SENTINEL_VICTIM)
                 os.symlink(os.path.join(root, "simfs/out/nowhere.json"), os.path.join(root, "simfs/out/dangling"))
                 os.symlink(os.path.join(root, "simfs/victim/secret.txt"), os.path.join(root, "simfs/out/link2file"))
-                argv = [a.replace("/simfs/", root + "/simfs/") if a.startswith("/simfs/") else a for a in plan["argv"]]
+                # also inside --file=/simfs/... and -f/simfs/... spellings
+                argv = [a.replace("/simfs/", root + "/simfs/", 1) if (a.startswith(("/simfs/", "-f/simfs/")) or
+                                                                     "=/simfs/" in a) else a for a in plan["argv"]]
                 env = dict(os.environ, PYTHONPATH=core.REPO, PYTHONDONTWRITEBYTECODE="1",
                            HOME=os.path.join(root, "simfs/home"))
                 r = subprocess.run([sys.executable, "-m", "btc_hd_wallet"] + argv, cwd=os.path.join(root, "simfs/cwd"),
